@@ -612,14 +612,29 @@ impl<'a, C: SimCfg> Runner<'a, C> {
                 }
             }
         }
+        // The recovered engines run with a free-running write-behind
+        // pipeline (real threads): which path a request takes (entry still
+        // pinned or already flushed) depends on their timing. No schedule is
+        // explored here, so the controller is taken out: nothing of this
+        // phase enters the recorded decisions.
+        let saved = simkit::sched::take();
         let mut k_prev = 0usize;
+        let mut res = Ok(());
         for j in 0..=m {
             let dj = disk.prefix(j, self.sc.cfg.sched_seed ^ j as u64);
-            let k = self.check_recovered(dj, j, m, k_prev).await?;
-            k_prev = k;
+            match self.check_recovered(dj, j, m, k_prev).await {
+                Ok(k) => k_prev = k,
+                Err(e) => {
+                    res = Err(e);
+                    break;
+                }
+            }
             self.stats.crash_prefixes += 1;
         }
-        Ok(())
+        if let Some(c) = saved {
+            simkit::sched::install(c);
+        }
+        res
     }
 
     async fn check_recovered(
@@ -702,7 +717,9 @@ impl<'a, C: SimCfg> Runner<'a, C> {
             drop(te);
             {
                 let mut s = e.clone().input_session().await;
-                for (n, v) in &seen {
+                let mut order: Vec<(&u32, &Val)> = seen.iter().collect();
+                order.sort();
+                for (n, v) in order {
                     let mut nv = v.clone();
                     nv.insert(0, nv.first().copied().unwrap_or(0).wrapping_add(1));
                     nv.truncate(3);
